@@ -53,7 +53,12 @@ def main(argv):
         r = run_one(mod, case)
         if "--shrink" in argv and r.get("violations") and hasattr(mod, "shrink"):
             try:
-                case2 = mod.shrink(case, r["violations"], deadline=time.time() + 45)
+                # shrink towards the violations that are NOT listed findings, so that a case showing a listed
+                # finding and something else cannot collapse to the listed finding alone
+                from . import findings as findings_mod
+                known = findings_mod.load_known(pid)
+                target = [v for v in r["violations"] if not findings_mod.match(known, v)] or r["violations"]
+                case2 = mod.shrink(case, target, deadline=time.time() + 45)
                 if case2 is not None:
                     r2 = run_one(mod, case2)
                     if r2.get("violations"):
